@@ -266,3 +266,14 @@ Proof.
   repeat split; try (vm_compute; congruence); auto; try discriminate.
 Qed.
 Print Assumptions C05_example_history.
+
+(* outside valid_c (and outside DICOM: BitsAllocated = 1 with three samples per pixel, colour-by-plane):
+   the bit-packed branch of decode_frame only reshapes, pydicom's whole-array decode rearranges the
+   planes, so the hypothesis "c_planar c = true -> f_bits (c_fmt c) <> 1" of valid_c cannot be dropped.
+   Same values as the real code returns for these bytes (replayed, see claims note). *)
+Example C05_planar_bitpacked_outside :
+  let c := CFmt (Fmt 1 1 false 24 1) 3 true 2 in let pd := [165; 60; 15] in
+  frame_eager_c c pd 0 = Ok [1;0;1;0;0;1;0;1;0;0;1;1;1;1;0;0;1;1;1;1;0;0;0;0] /\
+  frame_of_array_c c pd 0 = Ok [1;0;1;0;0;1;1;1;1;0;1;1;0;1;0;1;1;0;0;0;0;1;0;0].
+Proof. split; vm_compute; reflexivity. Qed.
+Print Assumptions C05_planar_bitpacked_outside.
